@@ -598,7 +598,11 @@ impl Acceptor {
                         let idx = accepted2.fetch_add(1, Ordering::SeqCst);
                         let f = per_conn.clone();
                         let h = std::thread::spawn(move || f(idx, s));
-                        conns2.lock().unwrap().push(h);
+                        // a finished thread keeps its stack mapped until it is joined or detached: drop the handles of
+                        // those that are done (a lab is reused for thousands of scenarios; 65530 mappings are the limit)
+                        let mut g = conns2.lock().unwrap();
+                        g.retain(|h| !h.is_finished());
+                        g.push(h);
                     }
                     Err(_) => std::thread::sleep(Duration::from_millis(2)),
                 }
